@@ -170,7 +170,7 @@ def tree_fingerprint():
     return h.hexdigest()
 
 
-def build_workspace(ws: Workspace, modules, features=ALL_FEATURES, max_rounds=5, log=None):
+def build_workspace(ws: Workspace, modules, features=ALL_FEATURES, max_rounds=14, log=None):
     """Build; quarantine declarations that do not compile. Returns (ok, quarantined{did:[diags]}, info)."""
     quarantined = {}
     mods = list(modules)
